@@ -18,8 +18,10 @@ def run(chk, F):
         "child-side facts (the child exits after any Err result and answers once per request) are extracted from "
         "become_child, and every parent arm whose reply is Err (child dead, dying, killed or stream desynchronised) "
         "must set break_out, break_out must lead to process.kill() and a break to the outer loop that spawns a new "
-        "child whose fresh stdin/stdout handles are the ones used for the next request; (c) Sandbox::execute pairs "
-        "one send with one recv over bounded(1) channels; (d) the four framing functions agree on prefix width, "
+        "child whose fresh stdin/stdout handles are the ones used for the next request; (c) reply routing: the reply "
+        "of a request is sent on the channel (or with the tag) that arrived with that request, and Sandbox::execute reads "
+        "its reply from the channel it created for this call (or compares the tag), so a reply whose caller has gone "
+        "cannot be delivered to a later request; (d) the four framing functions agree on prefix width, "
         "endianness and order.")
     chk.assume("OS process/pipe semantics, signal delivery and timer behaviour are not analysed")
     chk.guard("request-loop", "run_task", lambda: parent(chk, F))
@@ -119,14 +121,42 @@ def parent(chk, F):
                    "a failed write of the request becomes this request's error reply (Ok(Err(err)) -> the stream-error arm: kill and respawn)",
                    "the result of writing the request is %s: when the child has died while idle the task ends, this request gets a closed-channel "
                    "error and every later request fails (no respawn)" % ("propagated with `?`" if wtry else "not turned into a reply"))
-    # RECV and SEND results must be consumed by `?`
+    # ---- (a1) reply routing: the reply of a request goes to the caller of *that* request ---------------
+    # Form A (per-request channel): the sender the reply is sent on was received together with the request, in the same
+    # iteration. Form B (shared reply channel): the sent value carries a tag that was received with the request (execute()
+    # then has to compare it, see execute()). A shared reply channel without a tag hands the reply of a request whose
+    # caller has gone (dropped execute() future) to the caller of the next request.
+    rs = next((s for s in seq if s[0] == "RECV"), None)
+    ss = next((s for s in seq if s[0] == "SEND"), None)
+    rlet = next((st for k, st in H.stmts_of(inner["body"]) if k == "let" and rs and st.get("init") is rs[2]), None)
+    rbinds = {b["name"]: b["lid"] for b in hir_walk(rlet["pat"]) if b.get("pk") == "bind"} if rlet else {}
+    form_a = SENDQ in rbinds and len(rbinds) >= 2
+    sent_locals = set()
+    if ss:
+        for mcall in H.method_calls(ss[2], "send"):
+            if (H.local_name(mcall["recv"]) or ("",))[0] == SENDQ:
+                for a in mcall["args"]:
+                    sent_locals |= {n["r"]["lid"] for n in hir_walk(a) if n.get("k") == "Path" and (n.get("r") or {}).get("res") == "local"}
+    form_b = (not form_a) and len(rbinds) >= 2 and bool(sent_locals & set(rbinds.values()))
+    chk.decide(form_a or form_b, "reply-routing", FK, "reply-goes-to-the-requester", "%s:%d" % (file, ss[1] if ss else inner["line"]),
+               "the reply is sent %s" % ("on the sender that arrived with the request" if form_a else "with the tag that arrived with the request"),
+               "the reply is sent on `%s`, a channel shared by all requests, and carries nothing that arrived with the request: when a caller "
+               "abandons execute() its reply stays in the channel and is delivered to the next request (and every later reply is off by one)" % SENDQ)
+    # RECV result is propagated with `?`; the SEND result is propagated only on a shared reply channel (the Sandbox is gone);
+    # on a per-request channel a failed send means this caller gave up, which must not end the task
     for tag in ("RECV", "SEND"):
         for s in seq:
             if s[0] == tag:
                 tries = [n for n in hir_walk(s[2]) if n.get("k") == "Try"]
-                chk.decide(bool(tries), "request-loop", FK, tag.lower() + "-result-consumed", "%s:%d" % (file, s[1]),
-                           "%s result is propagated with `?` (the task ends and the caller's recv fails = an error reply)" % tag,
-                           "the result of %s is not propagated" % tag)
+                rets = [n for n in hir_walk(s[2]) if n.get("k") in ("Ret", "Break")]
+                if tag == "SEND" and form_a:
+                    chk.decide(not tries and not rets, "request-loop", FK, "send-result-consumed", "%s:%d" % (file, s[1]),
+                               "a reply nobody waits for any more is dropped; the task goes on serving later requests",
+                               "a failed send on the per-request reply channel (the caller gave up) ends the task: every later request fails")
+                else:
+                    chk.decide(bool(tries), "request-loop", FK, tag.lower() + "-result-consumed", "%s:%d" % (file, s[1]),
+                               "%s result is propagated with `?` (the task ends and the caller's recv fails = an error reply)" % tag,
+                               "the result of %s is not propagated" % tag)
     # exactly one send in the whole function
     sends = [m for m in H.method_calls(body, "send") if (H.local_name(m["recv"]) or ("",))[0] == SENDQ]
     chk.decide(len(sends) == 1, "request-loop", FK, "single-send", "%s:%d" % (file, sends[0]["line"] if sends else 0),
@@ -311,21 +341,60 @@ def execute(chk, F):
     FK = "rink_sandbox::parent::Sandbox::execute"
     sends = [m for m in H.method_calls(body, "send")]
     recvs = [m for m in H.method_calls(body, "recv")]
-    no_loop = not loops(body)
-    ok = len(sends) == 1 and len(recvs) == 1 and no_loop and sends[0]["line"] < recvs[0]["line"] and \
-        "send_request" in H.expr_str(sends[0]["recv"]) and "recv_response" in H.expr_str(recvs[0]["recv"])
+    ok = len(sends) == 1 and len(recvs) == 1 and sends[0]["line"] < recvs[0]["line"]
     chk.decide(ok, "execute-pairing", FK, "one-send-one-recv", fn.where(),
-               "execute sends one request and then awaits exactly one response",
-               "execute does not pair exactly one send_request.send with one later recv_response.recv (sends %d, recvs %d, loop %s)" % (len(sends), len(recvs), not no_loop))
+               "execute sends one request and then awaits its response",
+               "execute does not pair exactly one send with one later recv (sends %d, recvs %d)" % (len(sends), len(recvs)))
+    if not ok:
+        return
+    # the reply that execute returns can only be the reply to the request this call sent:
+    #  form A: the receiver it reads from was created in this call (a channel constructor bound to a tuple pattern) and the
+    #          sender half of that very channel is part of the message sent with the request; no loop is needed;
+    #  form B: the receiver is long-lived (a field of self): then the recv sits in a loop and the value is returned only behind
+    #          an equality test between a tag taken from the received value and a tag sent with the request.
+    chans = {}   # lid of either half -> (lids of the pair, ctor call)
+    for st in hir_walk(body):
+        if st.get("sk") == "let" and st.get("init") and st["init"].get("k") == "Call" and (st.get("pat") or {}).get("pk") == "tuple":
+            callee = (st["init"]["f"].get("r") or {}).get("path", "")
+            halves = [b for b in st["pat"]["subs"] if b.get("pk") == "bind"]
+            if callee.split("::")[-1] in ("bounded", "unbounded", "channel") and len(halves) == 2:
+                for b in halves:
+                    chans[b["lid"]] = ([x["lid"] for x in halves], st["init"])
+    rl = H.local_name(recvs[0]["recv"])
+    sent = {n["r"]["lid"] for a in sends[0]["args"] for n in hir_walk(a) if n.get("k") == "Path" and (n.get("r") or {}).get("res") == "local"}
+    form_a = False
+    if rl and rl[1] in chans:
+        pair, ctor = chans[rl[1]]
+        other = [x for x in pair if x != rl[1]]
+        cap = ctor["args"][0]["lit"]["v"] if ctor["args"] and ctor["args"][0].get("k") == "Lit" else None
+        form_a = bool(other) and other[0] in sent and not loops(body) and (cap is None or cap >= 1)
+    form_b = False
+    if not form_a and loops(body):
+        for lp in loops(body):
+            if not any(m is recvs[0] for m in hir_walk(lp["body"])):
+                continue
+            for n in hir_walk(lp["body"]):
+                if n.get("k") == "If" and n["cond"].get("k") == "Binary" and n["cond"]["op"] == "Eq" and \
+                        any(x.get("k") in ("Ret", "Break") for x in hir_walk(n["then"])):
+                    cl = {x["r"]["lid"] for x in hir_walk(n["cond"]) if x.get("k") == "Path" and (x.get("r") or {}).get("res") == "local"}
+                    form_b = form_b or bool(cl & sent)
+    chk.decide(form_a or form_b, "reply-routing", FK, "reply-is-for-this-request", fn.where(),
+               "the reply is read from %s" % ("a channel created by this call whose sender travels with the request" if form_a
+                                               else "the shared channel in a loop that returns only the reply tagged like this request"),
+               "the reply is read from `%s`, shared by all calls, with nothing tying it to the request this call sent: a reply left behind by an "
+               "abandoned execute() is returned for the next request" % H.expr_str(recvs[0]["recv"], 60))
     # both awaited, send result propagated
     aw = [n for n in hir_walk(body) if n.get("k") == "Await"]
     chk.decide(len(aw) == 2, "execute-pairing", FK, "awaited", fn.where(), "both channel operations are awaited", "expected 2 awaits, found %d" % len(aw))
+    stry = any(n.get("k") == "Try" and any(m is sends[0] for m in hir_walk(n)) for n in hir_walk(body))
+    chk.decide(stry, "execute-pairing", FK, "send-failure-is-an-error", fn.where(), "a request that could not be handed to the task is an error reply",
+               "the result of sending the request is dropped: the call then waits for a reply that never comes")
     newf = F.find(CRATE, "parent::Sandbox::<S>::new")
     hb = H.simplify(H.body_of_async(F.hir_of(newf)))
     b = H.path_calls(hb, "bounded")
     caps = [c["args"][0]["lit"]["v"] for c in b if c["args"] and c["args"][0].get("k") == "Lit"]
-    chk.decide(caps == [1, 1], "execute-pairing", "rink_sandbox::parent::Sandbox::new", "bounded-1", newf.where(),
-               "request and response channels are bounded(1)", "channel capacities are %s, expected [1, 1]" % caps)
+    chk.decide(bool(caps) and all(c == 1 for c in caps) and len(caps) == len(b), "execute-pairing", "rink_sandbox::parent::Sandbox::new", "bounded-1", newf.where(),
+               "the long-lived channels are bounded(1): a second request waits until the task takes it", "channel capacities are %s, expected 1" % caps)
     # run_task is spawned once with both endpoints
     sp = H.path_calls(hb, "run_task")
     chk.decide(len(sp) == 1, "execute-pairing", "rink_sandbox::parent::Sandbox::new", "single-task", newf.where(),
